@@ -74,11 +74,11 @@ package readline
 //@ func (*Shell).yank
 //@   props C16 C01
 //@   terminates
-//@   requires cmdok(rl) && clean(killed(rl))
+//@   requires cmdok(rl) && editor.regsclean(rl.Buffers)
 //@   ensures [yank-once] old(len(rl.Iterations.times)) == 0 && !old(rl.Buffers.waiting) && !old(rl.Buffers.selected) && old(clean(killed(rl))) ==> *rl.line == old(*rl.line)[:old(kb(rl))] + core.stripz(old(killed(rl))) + old(*rl.line)[old(kb(rl)):]
-//@   loop 1 invariant cmdok(rl) && vii != 0 && (old(len(rl.Iterations.times)) == 0 ==> vii == 1) && buf == old(killed(rl))
+//@   loop 1 invariant cmdok(rl) && vii != 0 && (old(len(rl.Iterations.times)) == 0 ==> vii == 1) && clean(buf) && (!old(rl.Buffers.waiting) && !old(rl.Buffers.selected) ==> buf == old(killed(rl)))
 //@   loop 1 invariant i >= 1 && i <= max(vii, 0) + 1 && (i == 1 ==> *rl.line == old(*rl.line) && rl.cursor.pos == old(rl.cursor.pos))
-//@   loop 1 invariant i == 2 && old(clean(killed(rl))) ==> *rl.line == old(*rl.line)[:old(kb(rl))] + core.stripz(old(killed(rl))) + old(*rl.line)[old(kb(rl)):]
+//@   loop 1 invariant i == 2 && !old(rl.Buffers.waiting) && !old(rl.Buffers.selected) && old(clean(killed(rl))) ==> *rl.line == old(*rl.line)[:old(kb(rl))] + core.stripz(old(killed(rl))) + old(*rl.line)[old(kb(rl)):]
 //@   loop 1 decreases vii - i + 1
 
 //@ func (*Shell).viDeleteChar
@@ -96,7 +96,7 @@ package readline
 //@ func (*Shell).viPutBefore
 //@   props C16 C01
 //@   terminates
-//@   requires cmdok(rl) && clean(killed(rl))
+//@   requires cmdok(rl) && editor.regsclean(rl.Buffers)
 //@   ensures [put-once] old(len(rl.Iterations.times)) == 0 && !old(rl.Buffers.waiting) && !old(rl.Buffers.selected) && old(len(killed(rl))) > 0 && old(killed(rl))[old(len(killed(rl))) - 1] != '\n' ==> *rl.line == old(*rl.line)[:old(kb(rl))] + core.stripz(old(killed(rl))) + old(*rl.line)[old(kb(rl)):]
 //@   loop 1 invariant cmdok(rl) && vii != 0 && (old(len(rl.Iterations.times)) == 0 ==> vii == 1) && i >= 1 && i <= max(vii, 0) + 1 && 0 <= pos && clean(buffer)
 //@   loop 1 invariant old(len(killed(rl))) > 0 && old(killed(rl))[old(len(killed(rl))) - 1] != '\n' && !old(rl.Buffers.waiting) && !old(rl.Buffers.selected) ==> buffer == old(killed(rl)) && pos == old(kb(rl)) && (i == 1 ==> *rl.line == old(*rl.line)) && (i == 2 ==> *rl.line == old(*rl.line)[:old(kb(rl))] + core.stripz(old(killed(rl))) + old(*rl.line)[old(kb(rl)):])
@@ -186,3 +186,54 @@ package readline
 //@   let c = rl.Keys.matched[0]
 //@   let p = rl.cursor.pos
 //@   ensures [typed-char-inserted] 32 <= c && c <= 126 && !ispair(c) ==> *rl.line == old(*rl.line)[:p] + unit(c) + old(*rl.line)[p:] && rl.cursor.pos == p + 1
+
+// ---------------------------------------------------------------------------------------
+// C06: commands documented as pure movements never change the buffer text
+// (forward-word / vi-forward-word insert the suggested word only when history-autosuggest is on)
+
+//@ pred moveok(rl *Shell) = cmdok(rl) && rl.Config != nil && rl.Keymap != nil && core.cok(rl.cursor)
+//@ spec autosuggest(rl *Shell) bool = inputrc.cfgbool(rl.Config, "history-autosuggest")
+
+//@ func (*Shell).insertAutosuggestPartial
+//@   props C06 C01
+//@   assume_nopanic the suggestion branch (history-autosuggest on) slices the suggested line; only the frame of the disabled case is claimed
+//@   requires moveok(rl)
+//@   assigns *rl.line, rl.cursor.pos, rl.cursor.mark
+//@   ensures [off-means-no-edit] !autosuggest(rl) ==> *rl.line == old(*rl.line)
+//@   ensures [mid-line-no-edit] old(rl.cursor.pos) < old(len(*rl.line)) - 1 ==> *rl.line == old(*rl.line)
+
+//@ func (*Shell).forwardWord
+//@   props C06 C01
+//@   terminates
+//@   requires moveok(rl) && !autosuggest(rl)
+//@   ensures [movement-never-edits] *rl.line == old(*rl.line)
+//@   loop 1 invariant moveok(rl) && *rl.line == old(*rl.line) && !autosuggest(rl) && vii != 0
+//@   loop 1 decreases vii - i + 1
+
+//@ func (*Shell).backwardWord
+//@   props C06 C01
+//@   terminates
+//@   requires moveok(rl)
+//@   ensures [movement-never-edits] *rl.line == old(*rl.line)
+//@   loop 1 invariant moveok(rl) && *rl.line == old(*rl.line)
+//@   loop 1 decreases vii - i + 1
+
+//@ func (*Shell).backwardChar
+//@   props C06 C01
+//@   terminates
+//@   requires moveok(rl)
+//@   ensures [movement-never-edits] *rl.line == old(*rl.line)
+//@   loop 1 invariant moveok(rl) && *rl.line == old(*rl.line)
+//@   loop 1 decreases vii - i + 1
+
+//@ func (*Shell).beginningOfLine
+//@   props C06 C01
+//@   assume_nopanic Iterations.Add (vi count handling) is outside this contract
+//@   requires moveok(rl)
+//@   ensures [movement-never-edits] *rl.line == old(*rl.line)
+
+//@ func (*Shell).endOfLine
+//@   props C06 C01
+//@   terminates
+//@   requires moveok(rl)
+//@   ensures [movement-never-edits] *rl.line == old(*rl.line)
